@@ -46,15 +46,19 @@ CLAIMS = {
   "Proof of the per-frame step of the message reader for all byte streams: Reader.NextFrame/readHeader consume exactly "
   "one header, apply CheckHeader and the fragmentation rules, set up the payload window (limited, unmasking, UTF-8 "
   "checked) and keep the reader invariant; CipherReader.Read and UTF8Reader.Read transform/validate every chunking of "
-  "the payload identically. The multi-frame loop of Reader.Read is not under contract (see note).",
-  "Reader.Read/Discard (the loop that stitches frames into a message) could not be brought under contract within the "
-  "solver budget and is NOT covered; extensions and OnContinuation/OnIntermediate callbacks are excluded by "
-  "precondition in NextFrame. io.Copy into ioutil.Discard/controls is a trusted contract."),
+  "the payload identically; Reader.Read's own decision logic (no-advance, end of frame, end of fragment, end of "
+  "message, reset) and Reader.Discard (skips whole fragmented messages, leaves the reader idle) are proved with the "
+  "reader chain behind r.frame as a black box.",
+  "In Reader.Read the call r.frame.Read is an arbitrary io.Reader with an extended frame and three ASSUMED facts "
+  "(listed in evidence notes; DESIGN 10.1), so byte-exact reassembly through the whole chain in one theorem is NOT "
+  "claimed - it is the composition of the separately proved CipherReader/UTF8Reader/LimitedReader contracts. "
+  "ReadMessage/readData helpers, extensions and OnContinuation/OnIntermediate callbacks are not covered. io.Copy into "
+  "ioutil.Discard is a trusted contract."),
  "C05": ("proof",
   "Proof that the first offending header is refused: readHeader+CheckHeader reject exactly the RFC-violating headers, "
   "and NextFrame rejects continuation-without-start and data-frame-inside-fragmented-message at that frame, leaving "
   "the error returned before any payload byte of the offending frame is handed out.",
-  "Same exclusions as C04 (Reader.Read loop, extensions, callbacks)."),
+  "Same exclusions as C04 (helpers, extensions, callbacks)."),
  "C06": ("proof",
   "Unbounded proof over wsutil.Writer (Write, WriteThrough, Grow, flushFragment, FlushFragment, Flush, constructors, "
   "reserve/headerSize arithmetic): every flush emits one header+payload with the right opcode/FIN/continuation flags, "
@@ -67,14 +71,32 @@ CLAIMS = {
   "Proof that the UTF-8 DFA step function (decode) equals the RFC 3629 acceptor written as a spec, that "
   "UTF8Reader.Read folds it over exactly the bytes it hands out for every chunking, reports ErrInvalidUTF8 as soon as "
   "the state is rejecting, and that Valid/Accepted/Reset report/restore the fold state.",
-  "The end-of-message check that an incomplete sequence is invalid lives in Reader.Read, which is not under contract "
-  "(see C04)."),
+  "The end-of-message check in Reader.Read (incomplete sequence => ErrInvalidUTF8 and the reader is reset) is proved "
+  "with the chain as a black box (see C04)."),
  "C08": ("proof",
   "Proof that ControlWriter never emits more than 125 payload bytes, always as one final control frame, counts what it "
   "accepted, and that the protocol-error close reply is a well-formed (masked on the client side) close frame with "
   "status 1002.",
-  "HandlePing/HandlePong/HandleClose bodies use io.CopyBuffer with concrete writers and are not under contract; only "
-  "the pieces named in evidence are."),
+  "HandleClose's decisions (empty close answered by an empty close and reported as 1005, one-byte and cut payloads are "
+  "errors, never nil), HandlePing's empty-ping reply and Handle's dispatch are proved; the payload-carrying "
+  "ping/pong/echo paths go through io.Copy / a ControlWriter over the same buffer and are abstracted (havoc). "
+  "Assumes a transport never returns the library's own ClosedError."),
+ "C09": ("proof",
+  "PARTIAL: proof of the pure text helpers the server handshake is built from, for all inputs: bsplit3 (cuts at the "
+  "first two separators), httpParseRequestLine and httpParseVersion (HTTP/<digits>.<digits>, value for one-digit "
+  "versions), httpParseHeaderLine/btrim (blanks around key and value ignored, nothing else dropped), "
+  "canonicalizeHeaderKey (= ASCII CanonicalMIMEHeaderKey, so header names compare case-insensitively), asciiToInt.",
+  "Upgrader.Upgrade / HTTPUpgrader.Upgrade themselves (header bookkeeping, nonce check, response writing, callbacks, "
+  "bufio, net/http) are NOT under contract: the iff-statement of C09 is not proved, only that its parsing primitives "
+  "do what the handshake assumes. bytes.IndexByte/bytes.Equal are assumed contracts."),
+ "C10": ("proof",
+  "PARTIAL: proof that the response status line is accepted with status 101 only if its status token is literally "
+  "'101' between the first two blanks (httpParseResponseLine, bsplit3, asciiToInt: digits only, exact value for up to "
+  "three digits; two defects found and fixed), that the version has the HTTP/<digits>.<digits> shape, that header "
+  "lines are split/trimmed/canonicalised as for C09, and that hostport appends the default port exactly when the "
+  "host has no explicit one.",
+  "Dialer.Upgrade / Dialer.Dial (request writing, header checks, accept-key comparison, extension matching, buffer "
+  "hand-over) are NOT under contract. hostport assumes a host with at most one ']'."),
  "C12": ("proof",
   "Proof of the two glue components for all inputs: the tail-withholding proxy cbuf (bytes that reached the "
   "destination followed by the withheld bytes are exactly the bytes written; up to four withheld; zero padded) and the "
@@ -104,7 +126,8 @@ CLAIMS = {
   "Proof, with the transport as an arbitrary ghost stream that may end or fail at any byte, that ReadHeader/ReadFrame/"
   "readHeader/NextFrame return a non-nil error whenever the stream ends inside a header, a control payload or "
   "(ReadFrame) the payload, and that wsutil.Writer reports the first transport error and stays failed.",
-  "Reader.Read (payload cut inside a data frame is detected there) is not under contract."),
+  "Reader.Read's cut detection (frame ended with bytes still owed => ErrUnexpectedEOF) is proved with the chain as a "
+  "black box; Reader.Discard reports a cut payload (defect found and fixed)."),
  "C17": ("proof",
   "Proof of freshness/aliasing clauses: MaskFrame/UnmaskFrame/MaskFrameWith return a payload that does not share "
   "memory with the argument; wsutil.Writer.Write/WriteThrough do not retain or modify the caller's slice.",
@@ -113,14 +136,11 @@ CLAIMS = {
  "C18": ("proof",
   "Proof that every Reset/constructor under contract establishes exactly the state a fresh object has (wsutil.Writer, "
   "UTF8Reader, CipherReader/Writer, Reader.reset, wsflate Writer/Reader/cbuf/suffixedReader/Extension).",
-  "sync.Pool wrappers (GetWriter/PutWriter etc.) are not under contract; wsutil.Reader.Read's error path is not "
-  "covered (see C04)."),
+  "sync.Pool wrappers (GetWriter/PutWriter etc.) are not under contract."),
 }
 
 NA = {
- "C09": "not decided: the server handshake (Upgrader/HTTPUpgrader) is several hundred lines of bufio/net/http/httphead glue with callbacks and string scanning; no contract within the engine's reach expresses it yet (DESIGN.md section 5)",
- "C10": "not decided: client handshake response parsing is not under contract yet (DESIGN.md section 5)",
- "C11": "not decided: needs both handshake sides under contract (C09, C10) plus a relational lemma; not reached (DESIGN.md section 5)",
+ "C11": "not decided: agreement of both peers and chunking independence need Upgrader.Upgrade, Dialer.Upgrade and readLine (bufio) under contract plus a relational lemma; only their parsing primitives are (see C09/C10); nothing is claimed (DESIGN.md section 5)",
  "C19": "not applicable: a property over concurrent schedules of goroutines and shared pools; per-function contracts with a sequential heap model cannot express or decide it (DESIGN.md section 5)",
  "C20": "not applicable: cancellation/deadline behaviour of Dial depends on goroutines, timers and net.Conn deadlines (whole-history, concurrency); outside what per-call contracts decide (DESIGN.md section 5)",
 }
@@ -136,7 +156,7 @@ def main():
             "quick_cmd": f"./check {pid} quick",
             "thorough_cmd": f"./check {pid} thorough",
             "evidence_file": f"/verif/evidence/{pid}.json",
-            "replay_cmd_template": "cat {path}",
+            "replay_cmd_template": "./replay.sh {path}",
             "engine": "govc",
             "level_claimed": {"category": cat, "text": text, "design_ref": f"DESIGN.md section 4 {pid}"},
             "level_note": note + " Functions under contract for this property: " + ", ".join(uc.get(pid, [])) + ".",
